@@ -152,9 +152,14 @@ def call_real(c, pool=None):
     qs = []
     for a in assets:
         q = out[a]["quantity"]
-        if not isinstance(q, (int,)) or isinstance(q, bool):
-            return ("bad", "quantity %r of %s is not an int" % (q, a))
-        qs.append(q)
+        # "a whole number": any numeric type with an integral value (int, numpy integer, 5.0)
+        try:
+            whole = not isinstance(q, bool) and float(q) == int(q)
+        except (TypeError, ValueError, OverflowError):
+            whole = False
+        if not whole:
+            return ("bad", "quantity %r of %s is not a whole number" % (q, a))
+        qs.append(int(q))
     return ("q", qs)
 
 
